@@ -114,7 +114,7 @@ def run_jobs(jobs, n, job_timeout):
     ctxm = mp.get_context("fork")
     tmpdir = tempfile.mkdtemp(prefix="pyvc_jobs_")
     pending = list(enumerate(jobs))
-    running, results = {}, {}
+    running, results, retried = {}, {}, set()
     while pending or running:
         while pending and len(running) < n:
             i, job = pending.pop(0)
@@ -141,7 +141,12 @@ def run_jobs(jobs, n, job_timeout):
                 try:
                     results[i] = json.load(open(path))
                 except Exception:   # noqa
-                    results[i] = _crash(job, f"worker process died (exit code {p.exitcode}) - solver crash?")
+                    if p.exitcode is not None and p.exitcode < 0 and i not in retried:
+                        # killed by a signal (a native crash inside the solver): says nothing about the code - run the job once more
+                        retried.add(i)
+                        pending.append((i, job))
+                    else:
+                        results[i] = _crash(job, f"worker process died (exit code {p.exitcode}) - solver crash?")
             del running[i]
     import shutil
     shutil.rmtree(tmpdir, ignore_errors=True)
